@@ -87,6 +87,15 @@ M = [
   "    while l - current_task > mx:", "    while l - current_task >= mx:")]),
  ("m26_mxrr_lt", "C19", [(H + "periodic_disk_revolve.py",
   "    while beta(cm+1, t) <= (wd + rd) / uf:", "    while beta(cm+1, t) < (wd + rd) / uf:")]),
+ ("m41_n_advance_maximum_one_more", "C05", [(P + "multistage.py",
+  "        if n <= b_s_tm1 + b_sm1_tm2:\n            return n - b_s_tm1 + b_s_tm2\n",
+  "        if n <= b_s_tm1 + b_sm1_tm2:\n            if snapshots >= 3 and t >= 4:\n                return n - b_s_tm1 + b_s_tm2 + 1\n            return n - b_s_tm1 + b_s_tm2\n")]),
+ ("m42_n_advance_revolve_last_branch_short", "C05", [(P + "multistage.py",
+  "        elif n < b_s_tm1 + b_sm1_tm1 + b_sm2_tm1:\n            return n - b_sm1_tm1 - b_sm2_tm1\n        else:\n            return b_s_tm1\n    else:\n        print(trajectory)",
+  "        elif n < b_s_tm1 + b_sm1_tm1 + b_sm2_tm1:\n            return n - b_sm1_tm1 - b_sm2_tm1\n        else:\n            return b_s_tm1 - (1 if t >= 5 else 0)\n    else:\n        print(trajectory)")]),
+ ("m43_optimal_extra_steps_s1_formula", "C05", [(P + "multistage.py",
+  "    elif s == 1:\n        return n * (n - 1) // 2\n",
+  "    elif s == 1:\n        return n * (n - 1) // 2 if n < 64 else (n * (n - 1) + 1) // 2 + n % 2\n")]),
  # further ones, aimed at single monitors
  ("m27_mixed_copy_instead_of_move", "C04", [(P + "mixed.py",
   "            if cp_delete:\n                yield Move(cp_n, self._storage, StorageType.WORK)",
